@@ -1971,6 +1971,10 @@ vinsertpair(VGROUP *vg,  /* IN: vgroup struct */
     /* clear error stack */
     HEclear();
 
+    /* the member count is stored in 16 bits: refuse to wrap it to zero */
+    if (vg->nvelt == MAX_REF)
+        HGOTO_ERROR(DFE_RANGE, FAIL);
+
     if ((int)vg->nvelt >= vg->msize) {
         vg->msize *= 2;
 
